@@ -952,6 +952,12 @@ def roots(leg, quick):
                 if name in ("warm", "part") and init:
                     mw = [["mfit", "x", 0]]   # a member that was evaluated on its own before
                 out.append({"init": init, "clen": 48, "reg": name, "prefix": prefix + mw})
+        # non-initial start: two LIVE suites after a crossover between them (y = clone of the evaluated x,
+        # x takes y's tail through the public cross_over), x evaluated again.  Whatever x and y share
+        # after that is then one mutate(y) away from a stale answer of x.
+        for init in ([0, 2], [2]):
+            out.append({"init": init, "clen": 48, "reg": "xsib",
+                        "prefix": warm + [["clone"], ["xoversib", "x"], ["fit", "x"], ["cov", "x"]]})
     return out
 
 
@@ -1025,7 +1031,7 @@ def run(ctx):
 
     def weight(t):
         leg, _, root, d = t
-        w = {"warm": 3, "part": 3, "all": 3, "one": 2, "none": 2}[root["reg"]]
+        w = {"warm": 3, "part": 3, "all": 3, "one": 2, "none": 2, "xsib": 4}[root["reg"]]
         return w * (1.0 if leg == "tc" else 0.6) * (15 if d > (3 if leg == "tc" else 2) else 1)
 
     # deal the tasks of each module into buckets of about equal estimated weight: one World per bucket
